@@ -9,7 +9,7 @@ use crate::object::*;
 use crate::error::*;
 use crate::content::{Content, FormXObject, Matrix, parse_ops, serialize_ops, Op};
 use crate::font::Font;
-use crate::enc::StreamFilter;
+use crate::enc::{StreamFilter, decode};
 
 /// Node in a page tree - type is either `Page` or `PageTree`
 #[derive(Debug, Clone, DataSize)]
@@ -635,7 +635,17 @@ impl ImageXObject {
                 }).unwrap_or(filters.len());
                 
                 let (normal_filters, image_filters) = filters.split_at(end);
-                let data = resolve.get_data_or_decode(id, file_range.clone(), normal_filters)?;
+                let data = if image_filters.is_empty() {
+                    resolve.get_data_or_decode(id, file_range.clone(), normal_filters)?
+                } else {
+                    // a partial decode must not share the stream cache entry of the full decode
+                    // (the cache is keyed by the reference only)
+                    let mut data: Arc<[u8]> = resolve.stream_data(id, file_range.clone())?;
+                    for filter in normal_filters {
+                        data = t!(decode(&data, filter), filter).into();
+                    }
+                    data
+                };
         
                 match image_filters {
                     [] => Ok((data, None)),
